@@ -11,7 +11,16 @@ import (
 func c37ID(tag string) common.PeerId {
 	// ids vary in their first two bytes: common-prefix lengths 0..16 with the (all-zero) local id, and
 	// equality with it, are all reachable
-	return common.PseudoPeerIdFromUint64(uint64(nondetU16(tag)))
+	// remote peers never carry the local id (the handshake rejects a connection to oneself), so the
+	// common-prefix length stays below 8*idbytes and the table has at most that many buckets
+	if param("idbytes") == 1 {
+		v := nondetU8(tag)
+		assume(v != 0)
+		return common.PseudoPeerIdFromUint64(uint64(v))
+	}
+	v := nondetU16(tag)
+	assume(v != 0)
+	return common.PseudoPeerIdFromUint64(uint64(v))
 }
 
 func Harness_C37_routing_table() {
@@ -58,6 +67,9 @@ func Harness_C37_routing_table() {
 			da, db := target.Distance(near[i-1].ID), target.Distance(near[i].ID)
 			assert(bytes.Compare(da[:], db[:]) <= 0, "nearest-sorted-by-xor-distance")
 		}
+	}
+	if param("withfind") == 0 {
+		return
 	}
 	// Find agrees with membership
 	probe := c37ID("probe")
